@@ -96,6 +96,10 @@ def run_shard(spec, acc):
                                     rng.randrange(3),
                                     rng.choice(["timeout", "timeout", "read_error",
                                                 "write_error"])))
+                            if j == 0 and kind != "timeout" and \
+                                    not fu.name.startswith("uiHeartbeat") and \
+                                    rng.random() < (0.5 if thorough else 0.15):
+                                variants.append("after-timeout")
                             if j == 0 and not fu.name.startswith("uiHeartbeat") and \
                                     rng.random() < (0.5 if thorough else 0.12):
                                 variants.append("flap:%d" % rng.choice([2, 5, 6, 7, 10, 16]))
@@ -185,6 +189,22 @@ def run_case(acc, c, roles=None):
         acc.count("cases_with_iodebug_on")
     with Stack(dev, version_one=v1, iodebug=iodebug) as s:
         s.initialize()
+        if c["variant"] == "after-timeout":
+            # the request before the faulted one ended in a time-out (no answer at all from
+            # the device, nothing to repair): what the link failure then needs is the same
+            if fu.post:
+                fu.post(dev)
+            s.bus.arm({0: Fault("timeout")})
+            rt, et, _ = s.request(fu.request)
+            acc.count("link_failures_right_after_a_timeout")
+            if et is not None or not isinstance(rt, dict) or rt.get("errorcode") != want:
+                return bad("timed-out-request-not-device-error:%s" % fu.command, reply=rt,
+                           exc=repr(et))
+            dev.mode = 0x03
+            dev.pending_link = None
+            dev.adv_policy = {}
+            for k_ in ("hb_back_mode", "hb_exit_mode"):
+                dev.cfg[k_] = shape.devcfg.get(k_)
         if shape.post:
             shape.post(dev)
         s.bus.arm({k: fault})
